@@ -209,7 +209,11 @@ Record srcflags := mkFlags {
   nj_pert_copy : bool ;        (* numeric_jacobian perturbs x.copy()s, not x *)
   grad_finally : bool ;        (* eval_dyad_grad.func: klong[a] = orig in a finally *)
   mg_finally : bool ;          (* call_fn_with_tensors: originals restored in a finally *)
-  mj_finally : bool            (* multi_jacobian_of_fn.single_param_fn: klong[s] = orig in a finally *)
+  mj_finally : bool ;          (* multi_jacobian_of_fn.single_param_fn: klong[s] = orig in a finally *)
+  fn_own_frame : bool          (* every path by which autograd invokes the user function is a proper call (klong.call of a KGCall,
+                                  which pushes a frame, or a Python callable): the function's locals and the unknown names it meets
+                                  live in its own frame, so its only effect on the store is explicit global assignment (the oracle's writes).
+                                  Not used by the model's control flow; it is what justifies the oracle interface, and the theorems require it. *)
 }.
 
 Section Ops.
